@@ -550,6 +550,12 @@ int main(int argc, char** argv)
                 std::cerr << "Error reading " << startdistfile << std::endl;
                 return EXIT_SUCCESS;
             }
+            // everything below is sized by GridSize
+            if (PhaseSpace::nx != ps_bins) {
+                std::cerr << "Grid size of " << startdistfile
+                          << " differs from GridSize." << std::endl;
+                return EXIT_SUCCESS;
+            }
         } else
         #endif
         if (isOfFileType(".txt",startdistfile)) {
